@@ -258,7 +258,10 @@ def replay_witness(w):
 def decoder_fuzz(call, rnd, n=4000):
     """texts -> first exception other than ValueError raised by call(text)"""
     import itertools
-    atoms = TOKENS + ["", " ", "L", "5L", "Z", "T", "/", "P", "-", "+", "1", "99", "000000", "-0000", "00010101T000000", "\ud800"]
+    atoms = TOKENS + ["", " ", "L", "5L", "Z", "T", "/", "P", "-", "+", "1", "99", "000000", "-0000", "00010101T000000", "\ud800",
+                      # extremes of the value ranges (timedelta: +-999999999 days, asymmetric; int: unbounded; year 1 / 9999)
+                      "-P999999999DT1S", "P999999999DT23H59M59S", "-P999999999D", "P999999999D", "-P999999999DT23H59M59S", "999999999", "DT1S",
+                      "-PT86399999913600S", "00010101T000000/-P1D", "99991231T235959/P1D", "99991231T235959Z/PT1S"]
     texts = list(atoms) + [a + b for a, b in itertools.product(atoms[:40], atoms[:40])]
     for _ in range(n):
         texts.append("".join(rnd.choice(atoms) for _ in range(rnd.randint(1, 4))))
